@@ -208,6 +208,13 @@ var Layouts = []Layout{
 	{Name: "if-line-comment", Pre: "\tif b {", Post: "\n\t}", Toks: []string{"// c\n", `yes`}},
 	{Name: "raw-go-line-comment", Pre: "\t{{", Post: "}}", Toks: []string{`_ = s`, "// c\n"}},
 	{Name: "legacy-line-comment", Pre: "\t{!", Post: "}", Toks: []string{`c()`, "// c\n"}},
+	// a carriage return that is not part of CR LF (old Mac line ends, a stray control character)
+	{Name: "lone-cr-after-expr", Pre: "\t<span>", Post: "</span>", Toks: []string{`{ s }`, "\r"}},
+	{Name: "lone-cr-after-element", Pre: "\t<p>", Post: "</p>", Toks: []string{`<b>x</b>`, "\r", `tail`}},
+	{Name: "lone-cr-after-raw-go", Pre: "\t<p>", Post: "</p>", Toks: []string{`{{ v := s }}`, "\r", `{ v }`}},
+	{Name: "lone-cr-in-attrs", Pre: "\t<div", Post: ">x</div>", Toks: []string{"\r", `id="i"`, "\r", `title={ s }`}},
+	{Name: "lone-cr-in-expr", Pre: "\t<p>{", Post: "}</p>", Toks: []string{`s`, "\r", `+`, `s`}},
+	{Name: "lone-cr-after-call", Pre: "\t<div>", Post: "</div>", Toks: []string{`@c()`, "\r", `x`}},
 	{Name: "raw-go", Pre: "\t{{", Post: "}}\n\t{ v }", Toks: []string{`v`, `:=`, `s`}},
 	{Name: "raw-go-two", Pre: "\t{{", Post: "}}\n\t{ v }", Toks: []string{`v`, `:=`, `up(`, `s`, `)`, `;`, `_ = v`}},
 	{Name: "if", Pre: "\tif ", Post: "{\n\t\tyes\n\t}", Toks: []string{`b`, `&&`, `len(xs) > 0`}},
